@@ -2,6 +2,7 @@ package signal
 
 import (
 	"strconv"
+	"unsafe"
 )
 
 type (
@@ -25,6 +26,17 @@ func Alloc[T SignalTypes](a Allocator) *Buffer[T] {
 
 // maxBitDebth returns a maximum bit debth for a given type, ie. 64 bits for int64 and uint64.
 func getBitDepth[T SignalTypes]() BitDepth {
+	// named types (type Sample int16) do not match the built-in pointer
+	// types below, their bit depth is determined by the size.
+	var zero T
+	switch unsafe.Sizeof(zero) {
+	case 1:
+		return BitDepth8
+	case 2:
+		return BitDepth16
+	case 4:
+		return BitDepth32
+	}
 	switch any(new(T)).(type) {
 	case *int8, *uint8:
 		return BitDepth8
